@@ -30,7 +30,7 @@ PROPS = {
     'C07': _p('proof', explanation='every array primitive of the Vec backend under a Verus contract stating its scalar definition; bodies extracted from /repo each run', kani_quick=True),
     'C08': _p('proof', explanation='every segmented-array operation under a Verus contract in list-of-lists (segment/offset) form plus the size invariant; iterator next/len/size_hint; checked constructors accept iff'),
     'C09': _p('proof', explanation='lax Hypergraph::quotient, OpenHypergraph::quotient and coequalizer extracted (rules T9, T15) and proved: the returned map is a coequalizer of the recorded unification pairs, every node reference is replaced by its image, hyperedges / labels / order untouched, labels per fibre, pending unifications cleared, a second quotient only renumbers; Err iff a fibre carries two labels, and then the diagram is unchanged'),
-    'C10': _p('proof', explanation='from_strict / to_strict proved to yield exactly the other representation (to_strict = quotient in the sense of C09, then the same data); both round trips return the diagram renumbered by a node bijection with hyperedges in place; lax coproduct, tensor, lax_compose (defined iff arities match), checked compose (defined iff types match), identity, spider, dagger, source, target proved against their definitions; strictification commutes, up to a node bijection, with composition and tensor for ALL lax operands and with identity / spiders / symmetry / dagger (lemmas: sum and pasting of coequalizers; for quotient-free operands the strictified composite is a pushout on the nose). Bounded: the in-place tensor_assign / append / coproduct_assign against the pure ones, singleton commutation, and that the renumbering is the identity on the Vec backend'),
+    'C10': _p('proof', explanation='from_strict / to_strict proved to yield exactly the other representation (to_strict = quotient in the sense of C09, then the same data); both round trips return the diagram renumbered by a node bijection with hyperedges in place; lax coproduct, tensor, lax_compose (defined iff arities match), checked compose (defined iff types match), identity, spider, dagger, source, target proved against their definitions; strictification commutes, up to a node bijection, with composition and tensor for ALL lax operands and with identity / spiders / symmetry / dagger / singleton (lemmas: sum and pasting of coequalizers; for quotient-free operands the strictified composite is a pushout on the nose). Bounded: the in-place tensor_assign / append / coproduct_assign against the pure ones, and that the renumbering is the identity on the Vec backend'),
     'C11': _p('proof', explanation='every builder call of lax::Hypergraph / OpenHypergraph (new_node, new_edge, new_operation, unify, add_edge_source / target, delete_edges, delete_nodes(_witness), with_nodes / with_edges, map_nodes / map_edges, empty, discrete, singleton) extracted and proved against the list model -- the struct is the list model, each contract states the new lists exactly and frames the rest; deletion: exactly the named items, survivors in order, references dropped / renumbered, pending pairs kept iff both ends survive, renumbering reported; out-of-range rejection (panic) and serde bounded'),
     'C12': _p('proof', explanation='define_map_arrow / spider_map_arrow proved, for every functor meeting the trait contract, to return the substitution instance (nodes replaced by their blocks, hyperedges by the image of the operations, glued along the expanded source and target lists by a coequalizer, interfaces expanded), well-formed and of type F(A) -> F(B); the instance is unique up to isomorphism; the Identity functor is proved to meet the contract and its image to be isomorphic to the argument; functoriality clauses and the lax DynFunctor wrapper are bounded', extra_modules=['subst', 'laws', 'laws2']),
     'C13': _p('exploration', explanation='proved on the real code: try_define_map_arrow and map_arrow_witness refuse (None) whenever pending unifications remain; the witness is the segmented array with segment sizes |F(label i)| and values n, n+1, .. (n = total size), well-formed, over the node set of the result; the lax map_half_spider is the block-wise injection (defined iff the ids are in range). The image itself (map_operations / map_objects / lax spider_map_arrow: impl-Trait returns, flat_map) carries no assumed contract and is compared with the strict path by the bounded module'),
